@@ -18,3 +18,4 @@ pub mod mrt_import;
 pub mod ribquery;
 pub mod http;
 pub mod filter;
+pub mod bmp_stream;
